@@ -266,6 +266,20 @@ def run_case(case, rec, ssj=None):
         return sweep_case(case, rec, ssj)
     if case['gen'] == 'pres':
         return pres_case(case, rec, ssj)
+    if case['gen'] == 'split':
+        from py_stringsimjoin.utils import generic_helper as gh
+        import numpy as np
+        n, k = case['n'], case['k']
+        parts = gh.split_table(np.arange(n * 2).reshape(n, 2), k)
+        cat = [int(r[0]) for p in parts for r in p]
+        if len(parts) != k or cat != [2 * i for i in range(n)]:
+            rec.violation('split_table', 'split_table(len=%d, k=%d) does not partition its input in order: '
+                          'chunk lengths %r' % (n, k, [len(p) for p in parts]), case=case)
+        return {'rows': n}
+    if case['gen'] == 'hash':
+        print('a cross-process digest disagreement cannot be replayed inside one process; re-run '
+              './check C10 --only hash (case index %r)' % case.get('index'))
+        return {'rows': 0}
     raise ValueError(case['gen'])
 
 
